@@ -199,6 +199,23 @@ func genChildren(rng *rand.Rand, depth int, maxEntries int, nextID *int) []*node
 	return out
 }
 
+// blockedTree: some directory named like the manifest is non-empty — the one situation in which
+// the cleaner legitimately fails on a well-behaved filesystem.
+func blockedTree(n *node) bool {
+	if n == nil || !n.dir {
+		return false
+	}
+	for _, c := range n.children {
+		if c.dir && c.name == manifestName && len(c.children) > 0 {
+			return true
+		}
+		if blockedTree(c) {
+			return true
+		}
+	}
+	return false
+}
+
 func kindsOf(n *node, r *hx.Result) {
 	if !n.dir {
 		switch {
@@ -331,6 +348,9 @@ func runOne(cfg Config, r *hx.Result, scratch string, tree *node, dot bool) {
 		if !beforeSet[f] {
 			fail("C20 file created or changed", "no new or altered files")
 		}
+	}
+	if implErr != nil && !panicked && !blockedTree(tree) {
+		fail("C20 clean returned an error on a tree it should clean", "success (no directory is named like the manifest and non-empty): "+implErr.Error())
 	}
 	if implErr == nil && !panicked {
 		for _, f := range now {
